@@ -1489,7 +1489,8 @@ impl Value {
     }
     pub(crate) fn match_fill(&mut self, ctx: Context) {
         if let Value::Byte(arr) = self {
-            if arr.meta.flags.is_boolean() && ctx.scalar_fill::<f64>().is_ok() {
+            // A numeric fill of any shape can put non-boolean numbers in the array
+            if arr.meta.flags.is_boolean() && ctx.array_fill::<f64>().is_ok() {
                 arr.meta.flags.remove(ArrayFlags::BOOLEAN);
             }
             if ctx.number_only_fill() {
